@@ -15,6 +15,7 @@ import VyxalModel.Model.Vectorise
 import VyxalModel.Model.Streams
 import VyxalModel.Gen.Codepage
 import VyxalModel.Gen.Dictionary
+import VyxalModel.Model.RefSem
 /-! Line protocol: `cmd<TAB>argument`; one answer line per request. -/
 open Vy
 
@@ -216,6 +217,62 @@ def streamCmd (arg : String) : String :=
      | _ => "BADMACHINE")
   | _ => "BADARG"
 
+/-! ### C01: values `[1,[2,3],4]`, the reference semantics, the element library -/
+partial def parseVal (cs : List Char) : Option (Sem.Val × List Char) :=
+  match cs with
+  | '[' :: rest =>
+    let rec items (cs : List Char) (acc : List Sem.Val) : Option (List Sem.Val × List Char) :=
+      match cs with
+      | ']' :: r => some (acc.reverse, r)
+      | ',' :: r => items r acc
+      | _ => match parseVal cs with
+        | some (v, r) => items r (v :: acc)
+        | none => none
+    (items rest []).map (fun (xs, r) => (Sem.Val.list xs, r))
+  | _ =>
+    let numS := cs.takeWhile (fun c => c.isDigit || c == '-')
+    if numS.isEmpty then none else (String.ofList numS).toInt?.map (fun i => (Sem.Val.int i, cs.drop numS.length))
+
+partial def showVal' : Sem.Val → String
+  | .int a => toString a
+  | .list xs => "[" ++ ",".intercalate (xs.map showVal') ++ "]"
+  | .fn _ => "<fn>"
+  | .none => "None"
+
+def parseValList (s : String) : List Sem.Val :=
+  match parseVal s.toList with
+  | some (.list xs, _) => xs
+  | _ => []
+
+def showSErr : Sem.SErr → String
+  | .fuel => "ERR fuel"
+  | .unmodelled w => "ERR unmodelled " ++ w
+  | .raised c => "ERR raised " ++ c
+  | .stuck w => "ERR stuck " ++ w
+
+def escNl (s : String) : String := (s.replace "\\" "\\\\").replace "\n" "\\n"
+
+/-- `ref <flags>|<inputs>|<program code points>` -/
+def refCmd (arg : String) : String :=
+  match arg.splitOn "|" with
+  | [flags, ins, prog] =>
+    (match parseTop (tokenise (parseCps prog)) with
+     | .error e => s!"ERR parse {repr e}"
+     | .ok tree =>
+       match Sem.refProgram (Sem.cfgOfFlags flags Gen.elements Gen.modifiers) 200 flags (parseValList ins) tree with
+       | .ok (st, out) => showVal' (.list st) ++ " " ++ escNl out
+       | .error e => showSErr e)
+  | _ => "BADARG"
+
+/-- `elem <python function name>|<argument list>` -/
+def elemCmd (arg : String) : String :=
+  match arg.splitOn "|" with
+  | [name, args] =>
+    (match Sem.elemFn name (parseValList args) with
+     | .ok v => showVal' v
+     | .error e => showSErr e)
+  | _ => "BADARG"
+
 def answer (cmd arg : String) : String :=
   match cmd with
   | "tok" => showToks (tokenise (parseCps arg))
@@ -273,6 +330,8 @@ def answer (cmd arg : String) : String :=
   | "arith" => arithCmd arg
   | "ll" => llCmd arg
   | "inp" => inpCmd arg
+  | "ref" => refCmd arg
+  | "elem" => elemCmd arg
   | _ => "BADCMD"
 
 partial def loop (h : IO.FS.Stream) (out : IO.FS.Stream) : IO Unit := do
